@@ -83,6 +83,8 @@ pub struct St {
 
 struct Alpha {
     rich: bool,
+    /// `if true {` as a fourth block-like construct: thorough tier only (it behaves like `{`)
+    ifs: bool,
 }
 
 impl Alphabet for Alpha {
@@ -119,7 +121,7 @@ impl Alphabet for Alpha {
                 PRINT => last != Some(PRINT),
                 PRINT_SH => last != Some(PRINT_SH) && last != Some(PRINT),
                 OPEN_BLOCK | OPEN_WHILE | OPEN_FOR => st.open.len() < 4,
-                OPEN_IF => self.rich && st.open.len() < 4,
+                OPEN_IF => self.ifs && st.open.len() < 4,
                 OPEN_F => !st.f_def && st.open.len() < 4,
                 OPEN_G => st.f_def && !st.g_def && st.open.len() < 4,
                 CLOSE => matches!(st.open.last(), Some((_, n, _)) if *n > 0),
@@ -481,11 +483,11 @@ impl Check for C04 {
 
     fn run(&self, ctx: &mut Ctx) -> Result<(), MachineryError> {
         let depth = std::env::var("C04_DEPTH").ok().and_then(|s| s.parse().ok()).unwrap_or(ctx.tier.pick(6usize, 8usize));
-        let alpha = Alpha { rich: true };
+        let alpha = Alpha { rich: true, ifs: ctx.tier == Tier::Thorough };
         ctx.rule = format!(
             "breadth-first over all well-formed histories of <= {} scope operations from {{x := k, x = k, print(x), open block / fn f / fn g / while(2 iterations) / for(2 elements){}, close, f(), g(), return a closure reading and writing x, h = f(), h(), h = closure, h = f, f = closure, closures calling f / g, the shorthand {{x}}, a function stored in an object and called as a method, a closure created in the first iteration of a for loop that reads the loop target, guarded recursive f()}} on top of `x := 0; h := null`; each program is completed by reading x at every open level, closing, and calling f, g, h at top level; dead states (failure before the cursor is first reached) are not expanded; plus a narrower exploration to a greater depth (<= {} operations from {{print(x), x := k, x = k, fn r reading and writing x, r(), open block, close, for(2), [x] = [k], {{..x}} = {{..}}}}); non-trivial = at least one scope-opening operation and one write of x",
             depth,
-            if alpha.rich { " / if" } else { "" },
+            if alpha.ifs { " / if" } else { "" },
             ctx.tier.pick(6usize, 9usize)
         );
         let mut g_closure_outlives = false;
